@@ -226,6 +226,12 @@ Qed.
 Lemma sn_send_sn (Q : packet -> Prop) s p : Q p -> all_sn Q (outs_of (sn_send s p)).
 Proof. apply sn_send_owned_sn. Qed.
 
+Lemma sn_send_now_sn (Q : packet -> Prop) s p : Q p -> all_sn Q (outs_of (sn_send_now s p)).
+Proof.
+  intros HQ. unfold sn_send_now.
+  destruct (len (pack p) <=? MaxPacketLen) eqn:Hl; cbn; [apply all_sn_one; [apply N.leb_le, Hl|exact HQ]|apply all_sn_nil].
+Qed.
+
 Lemma mq_send_sn Q s m : all_sn Q (outs_of (mq_send s m)).
 Proof. cbn. apply all_sn_mq. Qed.
 
